@@ -249,7 +249,11 @@ var bigLengths = []uint64{1 << 31, 1<<31 - 1, 1 << 32, 1<<32 - 1, 1 << 40, 1<<63
 
 // NestBomb builds an input of n nested container openings (optionally closed).
 func NestBomb(c *simkit.Choices, f model.Format) []byte {
-	n := []int{31, 32, 33, 63, 64, 65, 100, 1000, 5000}[c.N(9)]
+	return NestBombN(c, f, []int{31, 32, 33, 63, 64, 65, 100, 1000, 5000}[c.N(9)])
+}
+
+// NestBombN is NestBomb with a given number of levels.
+func NestBombN(c *simkit.Choices, f model.Format, n int) []byte {
 	var open, close []byte
 	switch f {
 	case model.JSON:
